@@ -908,6 +908,16 @@ class TaskGroup(abc.TaskGroup):
         )
         self.cancel_scope._tasks.add(task)
         self._tasks.add(task)
+
+        # If the scope is already (effectively) cancelled, its cancellation delivery may
+        # have wound down because no eligible tasks were left, so restart it to make sure
+        # that the new task gets cancelled too
+        if self.cancel_scope._cancel_called:
+            if self.cancel_scope._cancel_handle is None:
+                self.cancel_scope._deliver_cancellation(self.cancel_scope)
+        elif not self.cancel_scope._shield:
+            self.cancel_scope._restart_cancellation_in_parent()
+
         if sys.version_info >= (3, 14) and self.cancel_scope._host_task is not None:
             asyncio.future_add_to_awaited_by(task, self.cancel_scope._host_task)
 
